@@ -59,7 +59,7 @@ def mc_run(prop, module, factory, kwargs, name, tier, seed, max_states=2_000_000
         trace, v = res.violation
         out["violations"].append(confirm_and_store(prop, module, factory, kwargs, name, h, trace, v))
     else:
-        n = n_conf if n_conf is not None else (6 if tier == "quick" else 30)
+        n = n_conf if n_conf is not None else (12 if tier == "quick" else 40)
         tr, cy = explore.conformance(h, res, n, seed)
         out["conformance_traces"] = tr; out["conformance_cycles"] = cy
         # liveness obligations: (label, pending_mask, progress_mask)
